@@ -24,6 +24,25 @@ pub fn on_clock_read() {
     });
 }
 
+pub static ENV_READS_TOTAL: AtomicU64 = AtomicU64::new(0);
+
+/// An environment-variable read (getenv interposer): counted like a clock read while armed.
+#[inline]
+pub fn on_env_read() {
+    ENV_READS_TOTAL.fetch_add(1, Ordering::Relaxed);
+    let _ = T_ARMED.try_with(|a| {
+        if a.get() {
+            let _ = T_READS.try_with(|r| r.set(r.get() + 1));
+        }
+    });
+}
+
+/// Is the getenv interposer live?  (`std::env::var_os` must be seen.)
+pub fn probe_env() -> bool {
+    let (_, n) = trapped(|| std::env::var_os("STUNMON_PROBE_ENV"));
+    n > 0
+}
+
 /// Run `f` with the calling thread's clock trap armed; returns (result, clock reads seen).
 pub fn trapped<T>(f: impl FnOnce() -> T) -> (T, u64) {
     let before = T_READS.with(|r| r.get());
